@@ -125,8 +125,13 @@ func c07Check(c *Ctx, ms *ModSet, schema string, stream string) mergeRes {
 		if strings.Contains(res.Out, "model-not-nil") {
 			fail("a partial model is returned together with the errors")
 		}
+		onlyPlainFiles := true
 		for _, cf := range ms.Conflicts {
-			if cf.Kind == "syntax" || len(ms.Conflicts) > 1 {
+			onlyPlainFiles = onlyPlainFiles && cf.Kind == "not-a-module"
+		}
+		for _, cf := range ms.Conflicts {
+			// several files that are not modules do not mask each other: each is reported under its own name
+			if cf.Kind == "syntax" || (len(ms.Conflicts) > 1 && !onlyPlainFiles) {
 				// ANTLR errors carry no file; with several simultaneous conflicts one may mask another
 				// (a file that does not parse contributes nothing), so only the verdict is demanded
 				continue
